@@ -1090,7 +1090,8 @@ def replay(prop, path):
                                      shift=b.get("shift", 0), scale=b.get("scale", 1), preconv=b.get("preconv"),
                                      addarm_bin=b.get("addarm_bin"), binary_rewards=b.get("binary_rewards", False),
                                      lin_scale=b.get("lin_scale", False), runit=b.get("runit", 1))
-        rep = cf.Replay(binding, feat=finding.get("consts", {}).get("FeatSets") or finding.get("consts", {}).get("Feat", {}))
+        rep = cf.Replay(binding, feat=finding.get("consts", {}).get("FeatSets") or finding.get("consts", {}).get("Feat", {}),
+                        checks=cf.ALL_CHECKS + ("locality",))
         if finding.get("path_mode"):
             rep.run_paths(finding["trace"])
         else:
